@@ -78,6 +78,9 @@ def run(ctx):
     ctx.coverage["rule"] = (
         "a case = one scenario on a private NewTimedSched(p), p in {1, 2, NumCPU}: 2-12 goroutines x 8-32 Puts released "
         "together, deadline pattern past / now / all equal / increasing / decreasing / far-future-first-then-near / mixed, "
+        "and multi-step sequences (staged-hour / staged-secs: near and far-future tasks queued together, wait until every due "
+        "task has RUN, then 1-3 further waves of tasks with deadlines between now and the pending far deadlines; 1..4 "
+        "submitters, batch sizes multiples of p so every worker is hit; far = 1 h or 2-6 s away), "
         "plus self-re-submitting chains and a Close sample; run once per GODEBUG=asynctimerchan=0/1 (the semantics in "
         "effect is probed, not assumed); non-trivial = >= 2 submitting goroutines and >= 1 task executed through a heap "
         "and a timer (ran >= 1 ms after its Put), or a chain")
